@@ -353,7 +353,9 @@ pub(crate) fn convert_doc(svg_doc: &svgtree::Document, opt: &Options) -> Result<
         let mut g = Group::empty();
 
         if let Some(background_color) = background_color {
-            if let Some(path) = background_path(background_color, view_box.rect.to_rect()) {
+            if let Some(path) =
+                background_path(background_color, view_box.rect.to_rect(), root_ts)
+            {
                 g.children.push(Node::Path(Box::new(path)));
             }
         }
@@ -398,7 +400,11 @@ pub(crate) fn convert_doc(svg_doc: &svgtree::Document, opt: &Options) -> Result<
     Ok(tree)
 }
 
-fn background_path(background_color: svgtypes::Color, area: Rect) -> Option<Path> {
+fn background_path(
+    background_color: svgtypes::Color,
+    area: Rect,
+    abs_transform: Transform,
+) -> Option<Path> {
     let path = PathBuilder::from_rect(area);
 
     let fill = Fill {
@@ -411,10 +417,16 @@ fn background_path(background_color: svgtypes::Color, area: Rect) -> Option<Path
         ..Default::default()
     };
 
-    let mut path = Path::new_simple(Arc::new(path))?;
-    path.fill = Some(fill);
-
-    Some(path)
+    Path::new(
+        String::new(),
+        true,
+        Some(fill),
+        None,
+        PaintOrder::default(),
+        ShapeRendering::default(),
+        Arc::new(path),
+        abs_transform,
+    )
 }
 
 fn resolve_svg_size(svg: &SvgNode, opt: &Options) -> (Result<Size, Error>, bool) {
